@@ -738,6 +738,9 @@ def tuple_axis_probe(rep, r, n):
         cube += [10.0, 100.0, 1000.0, 5.0][k % 4] * np.arange(shape[k % 3]).reshape([-1 if i == k % 3 else 1 for i in range(3)])
         axes = [(0, 1), (0, 2), (1, 2), (-3, -2), (0, -1), (-2, -1), (1, 0)][k % 7]
         name, ref = ests[k % len(ests)]
+        if k < 2:
+            # corpus (runs first): F81 - MADStdBackgroundRMS with a negative entry; F79 - MeanBackground with negative entries
+            axes, (name, ref) = [((0, -1), ests[7]), ((-3, -2), ests[0])][k]
         from astropy.stats import SigmaClip
         for clip in (None, SigmaClip(sigma=3.0, maxiters=5)):
             est = getattr(pb, name)(sigma_clip=clip)
